@@ -147,6 +147,38 @@ class C04(core.Check):
                     for op in sample:
                         cases.append(dict(base, ops=[op]))
                         fam += 1
+        # moving a deep subtree: remove an element that has grandchildren, then put it back through each attaching call
+        nmove = 24 if self.tier == 'quick' else 300
+        moved = 0
+        tries = 0
+        while moved < nmove and tries < nmove * 20:
+            tries += 1
+            toks = dc.gen_tokens(rng, maxn=12 if self.tier == 'quick' else 40, depth=5)
+            base = dict(tokens=toks, spares=dc.SPARES, owner=rng.choice(['parser', 'parser', 'api']))
+            w = dc.World(dict(base, ops=[]))
+            els = w.all_elements()
+            deep = [e for e in els if e.parentNode is not None and any(g.children for c in e.children for g in c.children)]
+            if not deep:
+                continue
+            x = rng.choice(deep)
+            inside = set(id(y) for y in w.preorder(x))
+            targets = [e for e in w.preorder(w.root) if id(e) not in inside and not e.isSelfClosing]
+            if not targets:
+                continue
+            t = rng.choice(targets)
+            xi, ti = w.rk(x), w.rk(t)
+            refs = [None] + [(['E', w.rk(b)] if dc.is_tag(b) else ['T', b]) for b in t.blocks if not (dc.is_tag(b) and id(b) in inside)]
+            how = rng.choice(['appendChild', 'appendBlock', 'insertBefore', 'insertAfter', 'appendBlocks'])
+            if how == 'appendChild':
+                op = ['appendChild', ti, xi]
+            elif how == 'appendBlock':
+                op = ['appendBlock', ti, ['E', xi]]
+            elif how == 'appendBlocks':
+                op = ['appendBlocks', ti, [['T', 'x'], ['E', xi]]]
+            else:
+                op = [how, ti, ['E', xi], rng.choice(refs)]
+            cases.append(dict(base, ops=[['remove', xi], op]))
+            moved += 1
         # invariant-only histories with appendInnerHTML
         ninner = 40 if self.tier == 'quick' else 600
         for _ in range(ninner):
